@@ -107,3 +107,71 @@ theorem delivers {M : Type} (N e d : Nat) (enc : M → Nat) (dec : Int → Optio
     have : ((enc m1 + k : Nat) : Int) - (k : Int) = (enc m1 : Int) := by omega
     rw [this, hround]
 end Mpc.RsaOt
+
+/-! ### The HEAD helpers over bare operations (`encryptO`/`decryptO`) -/
+
+namespace Mpc.Co
+open Mpc.Iknp (Label)
+variable {G : Type}
+
+theorem masks_agreeO (Γ : Group G) (g : G) (a b : Nat) (bit : Bool) :
+    (let s := senderSetupO Γ.ops g a
+     let B := Γ.ops.smul s.a (choicePointO Γ.ops g s.A b bit)
+     if bit then Γ.ops.add B s.AaInv else B) = Γ.ops.smul b (senderSetupO Γ.ops g a).A :=
+  masks_agree Γ g a b bit
+
+/-- `co_delivers` for the HEAD helpers over `Γ.ops`. -/
+theorem deliversO (Γ : Group G) (valid : G → Bool) (kdf : G → Nat → Label) (g : G) (a n : Nat)
+    (scalars : Nat → Nat) (bits : Nat → Bool) (wires : Nat → Wire)
+    (hA : valid (senderSetupO Γ.ops g a).A = true)
+    (hI : valid (senderSetupO Γ.ops g a).AaInv = true)
+    (hP : ∀ i, i < n → valid (choicePointO Γ.ops g (senderSetupO Γ.ops g a).A (scalars i) (bits i)) = true) :
+    ∃ cts, encryptO Γ.ops valid kdf (senderSetupO Γ.ops g a) n
+        (fun i => choicePointO Γ.ops g (senderSetupO Γ.ops g a).A (scalars i) (bits i)) wires = some cts ∧
+      cts.length = n ∧
+      ∃ out, decryptO Γ.ops valid kdf (senderSetupO Γ.ops g a).A n scalars bits cts = some out ∧
+        out.length = n ∧
+        ∀ i, i < n → out.getD i 0#128 = if bits i then (wires i).2 else (wires i).1 := by
+  have hany : (List.range n).any (fun i => !valid (choicePointO Γ.ops g (senderSetupO Γ.ops g a).A (scalars i) (bits i))) = false := by
+    rw [List.any_eq_false]
+    intro i hi
+    simp only [List.mem_range] at hi
+    simp [hP i hi]
+  have henc : encryptO Γ.ops valid kdf (senderSetupO Γ.ops g a) n
+      (fun i => choicePointO Γ.ops g (senderSetupO Γ.ops g a).A (scalars i) (bits i)) wires =
+      some ((List.range n).map fun idx =>
+        (kdf (Γ.ops.smul (senderSetupO Γ.ops g a).a (choicePointO Γ.ops g (senderSetupO Γ.ops g a).A (scalars idx) (bits idx))) idx
+            ^^^ (wires idx).1,
+         kdf (Γ.ops.add (Γ.ops.smul (senderSetupO Γ.ops g a).a (choicePointO Γ.ops g (senderSetupO Γ.ops g a).A (scalars idx) (bits idx)))
+            (senderSetupO Γ.ops g a).AaInv) idx ^^^ (wires idx).2)) := by
+    unfold encryptO
+    simp only [hA, hI, hany, Bool.not_true, Bool.false_eq_true, if_false]
+  refine ⟨_, henc, by simp, ?_⟩
+  generalize hcts : ((List.range n).map fun idx =>
+        (kdf (Γ.ops.smul (senderSetupO Γ.ops g a).a (choicePointO Γ.ops g (senderSetupO Γ.ops g a).A (scalars idx) (bits idx))) idx
+            ^^^ (wires idx).1,
+         kdf (Γ.ops.add (Γ.ops.smul (senderSetupO Γ.ops g a).a (choicePointO Γ.ops g (senderSetupO Γ.ops g a).A (scalars idx) (bits idx)))
+            (senderSetupO Γ.ops g a).AaInv) idx ^^^ (wires idx).2)) = cts
+  have hdec : decryptO Γ.ops valid kdf (senderSetupO Γ.ops g a).A n scalars bits cts =
+      some ((List.range n).map fun idx =>
+        (if bits idx then (cts.getD idx (0#128, 0#128)).2 else (cts.getD idx (0#128, 0#128)).1) ^^^
+          kdf (Γ.ops.smul (scalars idx) (senderSetupO Γ.ops g a).A) idx) := by
+    unfold decryptO
+    simp only [hA, Bool.not_true, Bool.false_eq_true, if_false]
+  refine ⟨_, hdec, by simp, ?_⟩
+  intro i hi
+  subst hcts
+  simp only [List.getD_eq_getElem?_getD, List.getElem?_map, List.getElem?_range hi, Option.map_some,
+    Option.getD_some]
+  have hm := masks_agreeO Γ g a (scalars i) (bits i)
+  simp only at hm
+  cases hb : bits i with
+  | false =>
+    rw [hb] at hm
+    simp only [Bool.false_eq_true, if_false] at hm ⊢
+    rw [hm, xor_cancel]
+  | true =>
+    rw [hb] at hm
+    simp only [if_true] at hm ⊢
+    rw [hm, xor_cancel]
+end Mpc.Co
